@@ -14,6 +14,7 @@ from . import synth
 KERNEL_NAMES = [
     "void gemm_kernel_a", "void elementwise_kernel_b", "ncclKernel_AllReduce_RING_LL_Sum_float", "ncclDevKernel_AllGather_RING",
     "void at::native::vectorized_elementwise_kernel", "Memset (Device)", "void softmax_warp_forward",
+    "void cutlass::Kernel<cutlass_80_tensorop_s1688gemm_128x128_nn>(cutlass::Params)",  # its short name differs from the long one
 ]
 MEMCPY_NAMES = ["Memcpy HtoD (Pageable -> Device)", "Memcpy DtoH (Device -> Pinned)", "Memcpy DtoD (Device -> Device)"]
 OP_NAMES = ["aten::mm", "aten::add", "aten::copy_", "aten::relu", "autograd::engine::evaluate_function: AddBackward0", "aten::linear"]
@@ -49,6 +50,8 @@ class Opts:
         self.steps_out_of_file_order = False  # ProfilerStep annotations are written after the operators, latest first
         self.n_extra_ops = None  # number of run-specific operator names (None: 0-3); large values give a wide vocabulary
         self.p_dual_cat = 0.0  # an operator name also occurs as a user_annotation (same name, two categories)
+        self.first_op_in_step = False  # the first event of the file (a host operator) lies inside the first profiler step, so event id 0 carries an iteration number
+        self.p_frac_kernel_dur = 0.0  # device activities whose duration is not a whole number while every timestamp is (the loader rounds only files with fractional timestamps)
         self.noncomplete_events = True  # False: every entry of the file has a duration, so the loader stores `dur` (and ids) in the narrowest integer type
         self.distinct_corr_per_rank = True  # False: every rank counts its correlation ids from the same start (per-process counters, as real traces do)
         self.__dict__.update(kw)
@@ -102,6 +105,8 @@ def gen_rank(rng: random.Random, o: Opts, rank: int = 0) -> List[Dict[str, Any]]
         if rng.random() < o.p_skew:
             kts = max(stream_free[s], lts - q * rng.randint(1, 2))  # skewed device clock: may precede the launch call
         kdur = 0 if rng.random() < o.p_zero_kernel else q * rng.randint(1, 6)
+        if kdur and rng.random() < o.p_frac_kernel_dur:
+            kdur -= rng.choice([0.25, 0.5, 0.75])  # shorter, so that activities of one stream still do not overlap
         if is_cpy:
             k = synth.memcpy(rng.choice(MEMCPY_NAMES), kts, kdur, s, c, nbytes=1024 * rng.randint(1, 64), bw=round(rng.uniform(0.5, 20.0), 3))
         else:
@@ -146,12 +151,12 @@ def gen_rank(rng: random.Random, o: Opts, rank: int = 0) -> List[Dict[str, Any]]
     # first event of the file must be a host operator (WF4)
     evs.append(synth.host_op("aten::first_op", t, q, tid=main_tid))
     t += q
-    if o.before_first and o.steps > 0:
+    if o.before_first and o.steps > 0 and not o.first_op_in_step:
         fill(t, t + step_len // 2, 1, main_tid, evs)
         t += step_len // 2
     nsteps = max(o.steps, 1)
     for s in range(nsteps):
-        start = t
+        start = o.base if (s == 0 and o.first_op_in_step) else t
         end = t + step_len
         if o.steps > 0:
             evs.append(synth.profiler_step(10 + s, start, end - start, tid=main_tid))
